@@ -1,6 +1,7 @@
 """C04 runner (implementation side): attribute assignment sequences through dot syntax, constructor keywords and the parser.
 stdout: JSON list, one record per element class."""
 import sys, io, json, contextlib, warnings, random
+from fractions import Fraction
 warnings.simplefilter('ignore')
 with contextlib.redirect_stdout(io.StringIO()):
     from musicxml.xmlelement import xmlelement as XE
@@ -94,6 +95,15 @@ for n in XE.__all__:
         seqv.append(None)
         if good:
             seqv.append(good[0])
+        # a refused value that compares (and hashes) equal to an accepted one: 1 then 1.0 on an integer type, 1.5 then Fraction(3, 2)
+        ints = [v for v in good if type(v) is int]
+        if ints:
+            k = rng.choice(ints)
+            if verdict(a, float(k)) in ('TypeError', 'ValueError'):
+                seqv += [k, float(k)]
+        flts = [v for v in good if type(v) is float and v == v and abs(v) != float('inf')]
+        if flts and verdict(a, Fraction(flts[0])) in ('TypeError', 'ValueError'):
+            seqv += [flts[0], Fraction(flts[0])]
         if exc and not good and not bad:
             seqv = [exc[0]]
         for v in seqv:
